@@ -194,6 +194,9 @@ def run(ctx):
     total += random_runs(ctx, "mem", nrand, 2, 3, 1, kd, "m231")
     total += random_runs(ctx, "disk", nrand, 2, 2, 2, kd, "d222")
     total += random_runs(ctx, "disk", nrand // 2, 3, 2, 1, kd, "d321")
+    # DynamicContainer (write/read/query/remove + close/reopen probe), same monitor
+    total += random_runs(ctx, "dyn", nrand // 2, 3, 2, 2, kd, "y322")
+    total += random_runs(ctx, "dyn", nrand // 4, 2, 3, 1, kd, "y231")
     ctx.cov["traces_validated_against_impl"] = total
     ctx.cov["evaluations"] = total
     ctx.cov["distinct_nontrivial"] = total
